@@ -212,3 +212,41 @@ def malformed_programs():
         "def test(a: Qint[2]) -> Qint[2]:\n    return (lambda x: x)(a)",
         "def test(a: Qint[4]) -> Qint[4]:\n    return a.bit_length()",
     ]
+
+
+def fixed_templates():
+    """Qfixed operators (same-type operands, constants, integer multipliers)."""
+    out = []
+    for i, f in ((1, 2), (2, 2), (2, 3), (1, 4)):
+        t = f"Qfixed[{i},{f}]"
+        for op in ("+", "-"):
+            out.append(f"def test(a: {t}, b: {t}) -> {t}:\n    return a {op} b")
+        for op in CMP:
+            out.append(f"def test(a: {t}, b: {t}) -> bool:\n    return a {op} b")
+        for c in (0.5, 0.25, 1.5, 0.75):
+            if c < 2 ** i:
+                out.append(f"def test(a: {t}) -> {t}:\n    return a + {c}")
+                out.append(f"def test(a: {t}) -> bool:\n    return a > {c}")
+                out.append(f"def test(a: {t}) -> bool:\n    return a == {c}")
+        for k in (0, 1, 2, 3, 4, 5, 6, 7):
+            out.append(f"def test(a: {t}) -> {t}:\n    return a * {k}")
+            out.append(f"def test(a: {t}) -> {t}:\n    return {k} * a")
+    out.append("def test(a: Qfixed[2,2]) -> Qint[2]:\n    return int(a)")
+    out.append("def test(a: Qint[2]) -> Qfixed[2,2]:\n    return float(a)")
+    out.append("def test(a: Qfixed[2,2], b: Qfixed[2,2]) -> Qfixed[2,2]:\n    return a if a > b else b")
+    return out
+
+
+def control_templates():
+    """if / else statements whose condition is a bare variable, re-assignments of the
+    condition variable inside the branches, nested ifs, loops with conditions."""
+    t = []
+    t.append("def test(a: bool, b: Qint[2]) -> Qint[2]:\n    if a:\n        a = False\n        b = b + 1\n    else:\n        b = b + 2\n    return b")
+    t.append("def test(a: bool, b: Qint[2]) -> Qint[2]:\n    if a:\n        b = b + 1\n        a = not a\n        b = b + 1\n    return b if a else b + 1")
+    t.append("def test(a: bool, b: bool, c: Qint[2]) -> Qint[2]:\n    if a:\n        if b:\n            c = c + 1\n        else:\n            c = c + 2\n        a = b\n    else:\n        c = c ^ 3\n    return c + 1 if a else c")
+    t.append("def test(a: bool, b: Qint[2]) -> Tuple[bool, Qint[2]]:\n    if a:\n        a = b > 1\n        b = b + 1\n    return (a, b)")
+    t.append("def test(a: bool, b: bool, c: bool) -> bool:\n    d = a\n    if d:\n        d = b\n        c = not c\n    elif b:\n        c = d or c\n    else:\n        d = c\n    return c ^ d")
+    t.append("def test(a: Qint[2], p: bool) -> Qint[4]:\n    s = Qint4(1)\n    for i in range(3):\n        if p:\n            s = s + a\n            p = a > i\n        else:\n            s = s + i\n    return s")
+    t.append("def test(a: Qint[2], b: Qint[2]) -> Qint[2]:\n    c = a\n    if a > b:\n        c = b\n        b = a\n    return c + b")
+    t.append("def test(x: bool, y: bool) -> Tuple[bool, bool]:\n    if x:\n        x = y\n        y = not y\n    else:\n        y = x\n    return (x, y)")
+    return t
